@@ -127,6 +127,8 @@ pub struct LevelCfg {
     pub max_orders: usize,
     /// `Some(ms)`: every clock reading of the library is answered by a virtual clock advancing `ms` per reading
     pub clock_step_ms: Option<u64>,
+    /// the id the incoming side of every match carries (default: an id that never rests)
+    pub taker: u64,
 }
 
 impl LevelCfg {
@@ -236,6 +238,14 @@ pub fn set_id_ts(o: &Ord_, new_id: OrderId, ts: u64) -> Ord_ {
 // ---------------------------------------------------------------------------------------------
 // rebuild paths
 
+fn same_level(a: &PriceLevel, b: &PriceLevel, how: &str) -> Result<(), String> {
+    let (x, y) = (observe(a), observe(b));
+    if (x.price, x.vis, x.hid, x.count) != (y.price, y.vis, y.hid, y.count) || !same_orders(&x.orders, &y.orders) {
+        return Err(format!("the JSON form read through a {how} gives another level than the same text parsed directly: {} / {}", y.describe(), x.describe()));
+    }
+    Ok(())
+}
+
 pub fn rebuild_via(level: &PriceLevel, path: Path) -> Result<PriceLevel, String> {
     match path {
         Path::FromSnapshot => PriceLevel::from_snapshot(level.snapshot()).map_err(|e| e.to_string()),
@@ -249,11 +259,29 @@ pub fn rebuild_via(level: &PriceLevel, path: Path) -> Result<PriceLevel, String>
         }
         Path::SnapJson => {
             let j = level.snapshot_to_json().map_err(|e| e.to_string())?;
-            PriceLevel::from_snapshot_json(&j).map_err(|e| e.to_string())
+            let a = PriceLevel::from_snapshot_json(&j).map_err(|e| e.to_string())?;
+            // the same document read from a byte stream and through a generic JSON value
+            let b = serde_json::from_reader::<_, PriceLevelSnapshotPackage>(j.as_bytes())
+                .map_err(|e| format!("package JSON read through a byte reader: {e}"))
+                .and_then(|p| PriceLevel::from_snapshot_package(p).map_err(|e| format!("package JSON read through a byte reader: {e}")))?;
+            let c = serde_json::from_str::<serde_json::Value>(&j)
+                .and_then(serde_json::from_value::<PriceLevelSnapshotPackage>)
+                .map_err(|e| format!("package JSON read through a JSON value: {e}"))
+                .and_then(|p| PriceLevel::from_snapshot_package(p).map_err(|e| format!("package JSON read through a JSON value: {e}")))?;
+            same_level(&a, &b, "byte reader")?;
+            same_level(&a, &c, "JSON value")?;
+            Ok(a)
         }
         Path::Serde => {
             let j = serde_json::to_string(level).map_err(|e| e.to_string())?;
-            serde_json::from_str::<PriceLevel>(&j).map_err(|e| e.to_string())
+            let a = serde_json::from_str::<PriceLevel>(&j).map_err(|e| e.to_string())?;
+            let b = serde_json::from_reader::<_, PriceLevel>(j.as_bytes()).map_err(|e| format!("level JSON read through a byte reader: {e}"))?;
+            let c = serde_json::from_str::<serde_json::Value>(&j)
+                .and_then(serde_json::from_value::<PriceLevel>)
+                .map_err(|e| format!("level JSON read through a JSON value: {e}"))?;
+            same_level(&a, &b, "byte reader")?;
+            same_level(&a, &c, "JSON value")?;
+            Ok(a)
         }
         Path::Text => {
             let t = level.to_string();
@@ -429,7 +457,7 @@ impl<'a> Run<'a> {
             }
             Op::Match(q) => {
                 let r = self.rec.with_budget(budget, || {
-                    self.level.match_order(*q, oid(TAKER), &self.generator)
+                    self.level.match_order(*q, oid(cfg.taker), &self.generator)
                 });
                 match r {
                     Ok(mr) => {
@@ -564,9 +592,12 @@ impl<'a> Run<'a> {
                     Ok(Ok(l)) => {
                         self.level = l;
                         self.queue_obj = self.rec.last_queue().unwrap_or(u64::MAX);
-                        self.n_added = 0;
-                        self.n_removed = 0;
-                        self.q_executed = 0;
+                        // what a rebuilt level's statistics start from is not specified: the events since the
+                        // rebuild are counted on top of whatever it reports now
+                        let st = self.level.stats();
+                        self.n_added = st.orders_added() as u64;
+                        self.n_removed = st.orders_removed() as u64;
+                        self.q_executed = st.quantity_executed() as u128;
                         ImplRes::Restored
                     }
                     Ok(Err(m)) => ImplRes::RestoreFailed(m),
@@ -997,7 +1028,7 @@ impl LevelSubject {
                 if mr.executed_quantity() as u128 != m.executed() {
                     vio(&mut out, "C02 executed_quantity() != sum of transactions".into());
                 }
-                if mr.order_id != oid(TAKER) {
+                if mr.order_id != oid(cfg.taker) {
                     vio(&mut out, "C02 result carries a different taker id".into());
                 }
                 for (k, t) in mr.transactions.as_vec().iter().enumerate() {
@@ -1011,7 +1042,7 @@ impl LevelSubject {
                             format!("C02 transaction {k} price {} != level price {}", t.price, cfg.price),
                         );
                     }
-                    if t.taker_order_id != oid(TAKER) {
+                    if t.taker_order_id != oid(cfg.taker) {
                         vio(&mut out, format!("C02 transaction {k} has a wrong taker id"));
                     }
                     match maker {
